@@ -181,7 +181,7 @@ func CheckC03(c *Ctx) {
 			w.Count("modified-cover-cases")
 		})
 		// (3) random overlays: a random subset of the 8 Modified metrics defined
-		c.Parallel("overlay-"+v.Name, c.Pick(1_500_000, 60_000_000), 1<<13, func(w *Worker, i int) {
+		c.Parallel("overlay-"+v.Name, c.Pick(3_000_000, 60_000_000), 1<<13, func(w *Worker, i int) {
 			a := gen.RandomAssign(w.R, v)
 			for mi, me := range v.Metrics {
 				if me.BaseOf >= 0 && w.R.Bool() {
@@ -456,7 +456,7 @@ func CheckC04(c *Ctx) {
 			w.counts["realised:"+[]string{"through-base", "through-Modified", "mixed"}[mode]]++
 		})
 	}
-	c.Parallel("raw-random", c.Pick(1_000_000, 40_000_000), 1<<13, func(w *Worker, i int) {
+	c.Parallel("raw-random", c.Pick(3_000_000, 40_000_000), 1<<13, func(w *Worker, i int) {
 		var a spec.Assign
 		if w.R.Bool() {
 			a = gen.RandomAssign(w.R, api.Ver)
